@@ -5,8 +5,8 @@
    Model/ValChain.v (genesis, the authority's messages, blocks, histories of blocks). *)
 From stdpp Require Import gmap numbers list.
 From Coq Require Import ZArith.
-Require Import Model.Valset Model.ValChain.
-Require Import Proofs.ValsetLemmas Proofs.C13Proofs.
+Require Import Model.Bytes Model.Bank Model.Valset Model.L2 Model.ValChain Model.TraceVal.
+Require Import Proofs.ValsetLemmas Proofs.C13Proofs Proofs.C13L2.
 
 (* [genesis_ok g]: g is accepted by ValidateGenesis (no consensus key twice, no operator address
    twice, at most MaxValidators validators, MaxValidators <> 0), all powers are positive, and g
@@ -123,6 +123,18 @@ Theorem C13_history_zero_refuted :
     is_Some (ch_hist st !! 2%Z) ∧ is_Some (ch_hist st !! 3%Z) ∧ is_Some (ch_hist st !! 7%Z) ∧ ch_hist st !! 6%Z = None.
 Proof. exact history_zero_refuted. Qed.
 
+(* The blocks above are lists of the three validator operations.  They cover ALL histories of
+   L2 messages: every successful message of the complete opchild message server (deposits,
+   withdrawals, parameter updates, ExecuteMessages with nested messages, ...) changes the
+   validator core (validators, key index, last powers, MaxValidators, HistoricalEntries) exactly
+   like some finite list of validator operations, and a failing message not at all. *)
+Theorem C13_l2_messages_refine : ∀ (m : msg) (c : cfg) (s s' : l2state) (r : resp),
+  handle c s m = Some (s', r) → ∃ ops, core_of s' = foldl vop_exec (core_of s) ops.
+Proof. exact handle_val_reach. Qed.
+Theorem C13_l2_histories_refine : ∀ (c : cfg) (h : list msg) (s : l2state),
+  ∃ ops, core_of (run c s h).1 = foldl vop_exec (core_of s) ops.
+Proof. exact run_val_reach. Qed.
+
 Print Assumptions C13_engine_equals_state.
 Print Assumptions C13_engine_accepts.
 Print Assumptions C13_batch_wellformed.
@@ -133,3 +145,5 @@ Print Assumptions C13_history_exact_block.
 Print Assumptions C13_history_record_is_bonded_set.
 Print Assumptions C13_history_exact.
 Print Assumptions C13_history_zero_refuted.
+Print Assumptions C13_l2_messages_refine.
+Print Assumptions C13_l2_histories_refine.
